@@ -10,6 +10,7 @@ operations are functions of (DESIGN.md 3.4).
 from __future__ import annotations
 
 import itertools
+import signal
 from fractions import Fraction as F
 
 from mc.common import FAMILIES, grid_rects, xinter, xarea, center_shape, reset_frame_state
@@ -275,6 +276,24 @@ def cells_from_desc(desc):
 
 
 # ------------------------------------------------------------------ exploration
+OP_TIMEOUT = 20      # seconds
+
+
+class OperationDoesNotTerminate(Exception):
+    pass
+
+
+class StopShard(Exception):
+    pass
+
+
+def _on_alarm(signum, frame):
+    raise OperationDoesNotTerminate(f'no result after {OP_TIMEOUT} s')
+
+
+signal.signal(signal.SIGALRM, _on_alarm)
+
+
 def explore(init_cells, depth, on_state, on_transition, res, scale, ops=None, prior=False):
     """BFS from one initial state.  on_state(cells, alloc, hist); on_transition(cells, alloc, op, out|exc, hist)
     must return the model cells of the successor (or None to stop exploring that branch)."""
@@ -298,6 +317,7 @@ def explore(init_cells, depth, on_state, on_transition, res, scale, ops=None, pr
             for op in (ops or OPS):
                 res.transitions += 1
                 try:
+                    signal.alarm(OP_TIMEOUT)          # an operation takes milliseconds: this only fires on a livelock
                     if op[0] == 'refine':
                         out = alloc.refine(op[1], op[2])
                     elif op[0] == 'uniform':
@@ -307,8 +327,12 @@ def explore(init_cells, depth, on_state, on_transition, res, scale, ops=None, pr
                     exc = None
                 except Exception as e:  # noqa
                     out, exc = None, e
+                finally:
+                    signal.alarm(0)
                 h2 = hist + [list(op)]
                 succ = on_transition(cells, alloc, op, out, exc, h2, tol)
+                if isinstance(exc, OperationDoesNotTerminate):
+                    raise StopShard()      # reported; do not wait for the same livelock thousands of times
                 if lvl == depth - 1:
                     res.traces += 1
                 if succ is None or out is None:
@@ -537,7 +561,10 @@ def run_shard_common(mode, shard, tier, res):
         ck = Checker(mode, res, fam, cells)
         t_before = res.transitions
         ops = [('griddify',)] if shard.get('gridonly') else OPS_QUICK if (tier == 'quick' or shard.get('deep')) else OPS
-        explore(cells, depth, ck.on_state, ck.on_transition, res, scale, ops, prior=fam.startswith('P'))
+        try:
+            explore(cells, depth, ck.on_state, ck.on_transition, res, scale, ops, prior=fam.startswith('P'))
+        except StopShard:
+            break
         if res.transitions > t_before:
             n0 += 1
             if first is None:
@@ -571,11 +598,14 @@ def check_case_common(mode, case, res):
         if op[0] == 'must_be_refined':
             break
         try:
+            signal.alarm(OP_TIMEOUT)
             out = alloc.refine(op[1], op[2]) if op[0] == 'refine' else \
                 alloc.uniform_refinement_depth() if op[0] == 'uniform' else alloc.griddify()
             exc = None
         except Exception as e:  # noqa
             out, exc = None, e
+        finally:
+            signal.alarm(0)
         hist = hist + [list(op)]
         succ = ck.on_transition(cells, alloc, op, out, exc, hist, tol)
         if succ is None or out is None:
